@@ -153,7 +153,7 @@ def main():
     mode = a[a.index("--mode") + 1] if "--mode" in a else "token"
     muts = [json.loads(l) for l in subprocess.run([ROOT + "/mutgen", "-repo", REPO, "-mode", mode] + (["-typecheck"] if mode != "token" else []), capture_output=True, text=True).stdout.splitlines()]
     for i, m in enumerate(muts):
-        m["id"] = ("m%04d" if mode == "token" else "s%04d") % i
+        m["id"] = {"token": "m", "sibling": "s", "block": "b"}[mode] + "%04d" % i
     muts = [m for m in muts if os.path.basename(m["file"]) not in SKIP_FILES and (not files or m["file"] in files)]
     random.Random(7).shuffle(muts)
     rf = os.path.join(ROOT, "results.jsonl" if mode == "token" else "results_%s.jsonl" % mode)
